@@ -57,6 +57,38 @@ def run(ctx, chk):
     # R2 sharing granularity: the registry hands one Settings object to two calls only when their settings are equal
     from .c03 import registry_key_rule
     registry_key_rule(ctx, chk, "C20.R2")
+    # R4 check/use agreement of the memo getters: the table whose membership decides "already built?" is the table read back
+    n_g = 0
+    for fk in sorted(reach):
+        f = ctx.ix.funcs[fk]
+        rets = [n for n in iter_own_nodes(f.node) if isinstance(n, ast.Return) and isinstance(n.value, ast.Subscript)]
+        ifs = [n for n in iter_own_nodes(f.node) if isinstance(n, ast.If)]
+        if len(rets) != 1 or not ifs:
+            continue
+        root = rets[0].value
+        while isinstance(root, ast.Subscript):
+            root = root.value
+        if not (isinstance(root, ast.Attribute) and isinstance(root.value, ast.Name) and root.value.id in ("self", "cls")):
+            continue
+        read = ast.unparse(root)
+        tested = set()
+        for i_ in ifs:
+            for c in ast.walk(i_.test):
+                if isinstance(c, ast.Compare) and any(isinstance(o, (ast.NotIn, ast.In)) for o in c.ops):
+                    for comp in c.comparators:
+                        r_ = comp
+                        while isinstance(r_, ast.Subscript):
+                            r_ = r_.value
+                        if isinstance(r_, ast.Attribute) and isinstance(r_.value, ast.Name) and r_.value.id in ("self", "cls"):
+                            tested.add(ast.unparse(r_))
+        if not tested:
+            continue
+        n_g += 1
+        chk.ob("C20.R4", "%s: the table tested for membership (%s) is the table it reads back (%s)" % (f.qual, sorted(tested), read), tested == {read},
+               "the guard consults %s but the value is read from %s: the two tables are filled at different moments, so a thread switch "
+               "between them (or an eviction) makes the read-back fail with KeyError or return another caller's entry" % (sorted(tested), read),
+               key={"function": fk, "construct": "memo guard/read agreement"}, file=f.file, function=f.qual, line=rets[0].lineno)
+    chk.floor("C20.R4", n_g, 4, "memo getters (membership test + read-back)")
     # R3 precondition of the try_previous_locales exclusion: the library's own parsers never turn it on
     from .c13 import previous_locales_flag_rule
     previous_locales_flag_rule(ctx, chk, "C20.R3")
@@ -287,10 +319,13 @@ def classify(ctx, heap, f, node, kind, target):
     if tgt is None:
         return "FINDING", "unrecognised write shape"
     # 0. out of the property's scope
+    # (the write runs ONLY when an excluded feature is on: the flag is a positive conjunct of an enclosing test, not one
+    # alternative of a disjunction)
     for test, pol in enclosing_tests(f.node, node):
-        names = {x.attr for x in ast.walk(test) if isinstance(x, ast.Attribute)} | {x.id for x in ast.walk(test) if isinstance(x, ast.Name)}
-        if pol and names & set(OUT_OF_SCOPE_FLAGS):
-            return "out-of-scope", "guarded by %s, which the property excludes" % sorted(names & set(OUT_OF_SCOPE_FLAGS))
+        for a, p in conjuncts(test, pol):
+            nm = a.attr if isinstance(a, ast.Attribute) else a.id if isinstance(a, ast.Name) else None
+            if p and nm in OUT_OF_SCOPE_FLAGS:
+                return "out-of-scope", "guarded by %s, which the property excludes" % nm
     # lock
     for a in ancestors(f.node, node):
         if isinstance(a, ast.With) and any("lock" in ast.unparse(i.context_expr).lower() for i in a.items):
